@@ -356,6 +356,9 @@ def check(case, res):
     if res.get("st") != "done":
         return vs, True
     m = case.meta
+    if m.get("kind") == "wrongmod":
+        from . import c17
+        return c17.check(case, res)
     if m.get("kind") in ("decl", "forall", "vary"):
         return check_extra(case, res, vs)
     st = res["steps"]
@@ -636,7 +639,7 @@ def run(tier):
     from . import c17
     from .. import build as _build
     _build.ensure("asan", bins=("vdrv", "vmod"))
-    total.merge(explore("%s-%s-objects" % (PROP, tier), c17.wrongmod_gen(), c17.check, chunk=5, deadline=deadline))
+    total.merge(explore("%s-%s-objects" % (PROP, tier), c17.wrongmod_gen(), check, chunk=5, deadline=deadline))
     from ..core import explore_gcc
     total.merge(explore_gcc("%s-%s-level1" % (PROP, tier), level_gen(first_frontier), check, chunk=150, deadline=deadline))
     total.merge(explore("%s-%s-forall" % (PROP, tier), forall_gen(tier), check, chunk=50, deadline=deadline))
